@@ -169,12 +169,12 @@ def run_unit(unit, template, out_dir, rlimit=30, seed=None, canary=False, mutate
         res.status = "undecided"
         res.reason = "verus front-end failure: " + (errs[0]["msg"] if errs else "?")
         return res
-    if any(mk in p.stderr for mk in UNDECIDED_MARKERS):
-        res.status = "undecided"
-        res.reason = "solver resource limit"
-        return res
     real = []
+    limited = False
     for e in errs:
+        if any(mk in e["msg"] for mk in UNDECIDED_MARKERS):
+            limited = True      # this query ran out of resources: says nothing about the obligation
+            continue
         if not any(e["msg"].startswith(k) for k in OBLIGATION_ERRORS):
             res.status = "undecided"
             res.reason = f"unclassified verus error: {e['msg']}"
@@ -192,6 +192,10 @@ def run_unit(unit, template, out_dir, rlimit=30, seed=None, canary=False, mutate
             return res
         res.failed.append({"fn": fn, "kind": kind, "clause": " ".join(clause.split())[:200], "line": e["line"],
                            "text": e["text"][:200], "raw": e["raw"]})
+    if limited and not res.failed:
+        res.status = "undecided"
+        res.reason = "solver resource limit"
+        return res
     if res.errors > 0 and not res.failed:
         res.status = "undecided"
         res.reason = "verus reported errors that could not be parsed"
